@@ -44,7 +44,7 @@ PROPS = {
                      'CPython Condition semantics: FIFO notify, no spurious wake-ups',
                      'documented preconditions respected: wait/cont only after pause_on_next, one wait per episode',
                      'liveness is judged under a fair (round-robin) schedule after the adversarial phase'],
-        quick=dict(runs=60000, budget_s=45),
+        quick=dict(runs=200000, budget_s=70),
         thorough=dict(runs=3000000, budget_s=1200),
     ),
 }
